@@ -1,4 +1,4 @@
-(** C14 — every field of every JSON answer is the store's datum: mailbox, id, from, to, subject, date, posix-millis, size and seen of a header (list entries, v1 message, web-UI message), text / html / MIME header / attachments (digest and links with the resolved mailbox and the id as requested) of the messages, and a listing is rendered header by header in the store's order *)
+(** C14 — DEFINITION MADE EXPLICIT, not a result: the rendering model (jheader_of / jmessage_of / juimessage_of / render) maps every field of every JSON answer to the store's datum — what ties each field to the CODE is the per-field correspondence run; the consequence for the handlers is json_answers_are_store_entries: mailbox, id, from, to, subject, date, posix-millis, size and seen of a header (list entries, v1 message, web-UI message), text / html / MIME header / attachments (digest and links with the resolved mailbox and the id as requested) of the messages, and a listing is rendered header by header in the store's order *)
 From IV Require Import Base.Bytes Model.StoreSpec Model.Rest Proofs.RestJson.
 Theorem json_fields_reflect_store :
   (forall mb v, let h := jheader_of mb v in let m := snd v in
